@@ -121,6 +121,20 @@ func ruleC06(c *Ctx) {
 		return
 	}
 	w := c.W
+	checkNCBITables(c, dt)
+	c.Sites += 25 * 128
+	if dt.gen == nil {
+		c.missingHelper("SHAPE-GEN", "generator", "table generator function "+dt.genName)
+		return
+	}
+	checkGenerator(c, dt.gen)
+	checkTranslate(c)
+	_ = w
+}
+
+// checkNCBITables (TABLE-NCBI): the default table map has NCBI's 25 ids and every entry's residue and start/stop
+// strings equal the published ones. Shared by C06 (translation) and C08 (a fresh default table is pristine).
+func checkNCBITables(c *Ctx, dt *defaultTables) {
 	// --- TABLE-NCBI
 	for _, pr := range dt.problems {
 		c.undecided("TABLE-NCBI", "tablemap:shape", dt.mapPos, pr)
@@ -153,14 +167,6 @@ func ruleC06(c *Ctx) {
 		c.check(len(diffs) == 0, "TABLE-NCBI", fmt.Sprintf("table%d", code.id), dt.pos[code.id],
 			"64 residues and 64 start/stop marks equal NCBI's", strings.Join(diffs, "; "))
 	}
-	c.Sites += 25 * 128
-	if dt.gen == nil {
-		c.missingHelper("SHAPE-GEN", "generator", "table generator function "+dt.genName)
-		return
-	}
-	checkGenerator(c, dt.gen)
-	checkTranslate(c)
-	_ = w
 }
 
 // evalIntTerm evaluates an integer index expression over one variable (rendered term varStr) by the
